@@ -104,6 +104,10 @@ pub trait Interface: ErrorHandler {
                     header = call_header;
                 }
             }
+            else {
+                // An empty message is just a terminator: it resets the header as well.
+                header = self.root_node();
+            }
 
             input = i;
         }
